@@ -516,6 +516,13 @@ def run(ctx):
     r5.check(not bad_oo, "or_other_check[all language subsets on both sheets]", "128 combinations: warns iff or_other is used and a non-default language exists on either sheet",
              ooc.loc(), why_fail="; ".join(f"or_other={a} survey={b} choices={c}: {d}" for a, b, c, d in bad_oo[:3]))
     rules.append(r5)
+    # shared with C12.R2 (readers as siblings)
+    from . import c12 as _c12s
+    from .c08 import _take as _take_s
+    r_s = Rule("C20", "C20.R7", "every sheet of a Markdown workbook, also one that is a name only, is offered to the misspelling check", floor=3,
+               necessary="a misspelt sheet that is never registered gets no 'similar names' advisory")
+    _take_s(r_s, _c12s.run(ctx), "C12.R2", lambda c: c.startswith("md_to_dict:sheet names["))
+    rules.append(r_s)
     return rules
 
 
